@@ -270,7 +270,7 @@ def check_must_add(R, prog):
         R.bad(F("SAMPLER-MUST-ADD", fi, "divisibility gate", "regularity on the right needs r | l*d"))
 
 
-def check_exact_m(R, prog):
+def _shape_exact_m(R, prog):
     # bipartite_random_m_edges
     fi = prog.func(GR, "bipartite_random_m_edges")
     cfg = CFG(fi.node)
@@ -591,3 +591,189 @@ def check_edge_side(R, prog):
             else:
                 R.unknown("EDGE-SIDE", inst, fi.key, "side of an endpoint not followed")
     R.floor("EDGE-SIDE add_edge sites", n, 6)
+
+
+# ---------------------------------------------------------------------------- bounded folding of the edge samplers
+class _SeededRng:
+    """stand-in for the random module: the analyser's own seeded generator (`stuck` makes sample() answer with the head of the
+    population every time, so that a retry loop cannot make progress and the fallback branch is reached)"""
+
+    def __init__(self, stuck=False):
+        import random as _r
+        self.r, self.stuck = _r.Random(20240229), stuck
+
+    def sample(self, pop, k):
+        pop = list(pop)
+        if k > len(pop) or k < 0:
+            raise ValueError
+        return pop[:k] if self.stuck else self.r.sample(pop, k)
+
+    def randint(self, a, b):
+        if b < a:
+            raise ValueError
+        return self.r.randint(a, b)
+
+    def choice(self, seq):
+        seq = list(seq)
+        if not seq:
+            raise IndexError
+        return seq[0] if self.stuck else self.r.choice(seq)
+
+    def shuffle(self, lst):
+        if not self.stuck:
+            self.r.shuffle(lst)
+
+    def random(self):
+        return 0.0 if self.stuck else self.r.random()
+
+    def seed(self, x=None):
+        pass
+
+    def __getattr__(self, name):
+        from ..ql import Unknown
+        raise Unknown("random.%s is not modelled" % name)
+
+
+def semantic_samplers(prog):
+    """-> {function name: (True | False | None, detail)} for bipartite_random_m_edges, add_random_missing_edges, split_random_edges:
+    folded over stand-in graphs with the analyser's own seeded generator (and a `stuck` one that defeats retry loops): exactly the
+    requested number of new, distinct, in-range edges; every old edge kept; the documented refusals"""
+    import itertools
+    from ..fold import Folder, Raised
+    from ..ql import Unknown
+    from .. import standins as S
+    out = {}
+
+    def nni(v, name="x"):
+        if not isinstance(v, int) or isinstance(v, bool):
+            raise TypeError(name)
+        if v < 0:
+            raise ValueError(name)
+
+    def run(fname, args, stuck=False, budget=300000):
+        fi = prog.func(GR, fname)
+        f = Folder(env={}, fuel=budget)
+        rnd = _SeededRng(stuck)
+        f.globals = {"random": rnd, "BipartiteGraph": S.BipartiteGraph, "Graph": S.Graph, "DirectedGraph": S.DirectedGraph,
+                     "BaseBipartiteGraph": S.BaseBipartiteGraph, "non_negative_int": nni, "positive_int": nni, "product": itertools.product,
+                     "combinations": itertools.combinations}
+        f.module_functions = {}
+        try:
+            return ("value", f.call_function(fi.node, list(args), {}))
+        except Raised as r:
+            return ("raises", r.cls.split("(")[0])
+
+    def guard(fname, body):
+        try:
+            out[fname] = body()
+        except Unknown as e:
+            out[fname] = (None, "cannot fold %s: %s" % (fname, e))
+
+    def brm():
+        cnt = 0
+        for L, Rr in ((1, 1), (2, 3), (3, 3), (0, 2), (2, 0)):
+            for m in range(-1, L * Rr + 2):
+                what = "bipartite_random_m_edges(%d, %d, %d)" % (L, Rr, m)
+                res = run("bipartite_random_m_edges", [L, Rr, m])
+                invalid = L < 1 or Rr < 1 or m < 0 or m > L * Rr
+                if invalid:
+                    if res != ("raises", "ValueError"):
+                        return False, "%s ends with %r; ValueError expected" % (what, res)
+                else:
+                    G = res[1] if res[0] == "value" else None
+                    if not isinstance(G, S.BipartiteGraph) or (G.L, G.R) != (L, Rr) or G.number_of_edges() != m or \
+                            len(set(G.edges())) != m or any(not (1 <= u <= L and 1 <= v <= Rr) for u, v in G.edges()):
+                        return False, "%s gives %r; a bipartite graph on (%d, %d) vertices with exactly %d distinct edges expected" % (
+                            what, (res[0], getattr(G, "edges", lambda: None)()), L, Rr, m)
+                cnt += 1
+        return True, "%d (L, R, m) instances folded" % cnt
+    guard("bipartite_random_m_edges", brm)
+
+    def arm():
+        cnt = 0
+        graphs = [lambda: S.Graph.make(4, [(1, 2), (3, 4)]), lambda: S.Graph.make(3, []), lambda: S.Graph.make(1, []),
+                  lambda: S.BipartiteGraph.make(2, 3, [(1, 1), (2, 3)]), lambda: S.BipartiteGraph.make(2, 2, [(1, 1), (1, 2), (2, 1), (2, 2)])]
+        for mk in graphs:
+            G0 = mk()
+            cap = (G0.L * G0.R if isinstance(G0, S.BipartiteGraph) else G0.n * (G0.n - 1) // 2) - G0.number_of_edges()
+            for m in range(-1, cap + 2):
+                for stuck in (False, True):
+                    G = mk()
+                    before = set(G.edges())
+                    what = "add_random_missing_edges on a graph with edges %s, m=%d%s" % (sorted(before), m, " (retry loop making no progress)" if stuck else "")
+                    res = run("add_random_missing_edges", [G, m], stuck)
+                    if m < 0 or m > cap:
+                        if res != ("raises", "ValueError") or set(G.edges()) != before:
+                            return False, "%s ends with %r and the edges %s; ValueError and an unchanged graph expected" % (what, res, sorted(G.edges()))
+                    else:
+                        after = set(G.edges())
+                        if res[0] != "value" or not before <= after or len(after) != len(before) + m or G.number_of_edges() != len(after):
+                            return False, "%s ends with %r and the edges %s; the old edges plus exactly %d new ones expected" % (what, res[0], sorted(after), m)
+                    cnt += 1
+        return True, "%d (graph, m, generator) instances folded" % cnt
+    guard("add_random_missing_edges", arm)
+
+    def sre():
+        cnt = 0
+        for n, edges in ((4, [(1, 2), (2, 3), (3, 4), (1, 4)]), (3, [(1, 2)]), (2, [])):
+            for k in range(-1, len(edges) + 2):
+                for stuck in (False, True):
+                    G = S.Graph.make(n, edges)
+                    what = "split_random_edges on the graph with edges %s, k=%d" % (edges, k)
+                    res = run("split_random_edges", [G, k], stuck)
+                    if k < 0 or k > len(edges):
+                        if res != ("raises", "ValueError") or sorted(G.edges()) != sorted(edges) or G.n != n:
+                            return False, "%s ends with %r; ValueError and an unchanged graph expected" % (what, res)
+                    else:
+                        if res[0] != "value":
+                            return False, "%s raises %s" % (what, res[1])
+                        if G.n != n + k or G.number_of_edges() != len(edges) + k:
+                            return False, "%s leaves %d vertices and %d edges; %d and %d expected" % (what, G.n, G.number_of_edges(), n + k, len(edges) + k)
+                        gone = []
+                        for x in range(n + 1, n + k + 1):
+                            nb = G.neighbors(x)
+                            if len(nb) != 2 or tuple(sorted(nb)) not in [tuple(sorted(e)) for e in edges] or G.has_edge(nb[0], nb[1]):
+                                return False, "%s: the new vertex %d has neighbours %s; it must sit in the middle of one removed original edge" % (what, x, nb)
+                            gone.append(tuple(sorted(nb)))
+                        if len(set(gone)) != k or any(not G.has_edge(u, v) for u, v in edges if tuple(sorted((u, v))) not in gone):
+                            return False, "%s: the split edges are %s; k distinct edges expected and every other edge kept" % (what, gone)
+                    cnt += 1
+        res = run("split_random_edges", [S.BipartiteGraph.make(1, 1, [(1, 1)]), 1])
+        if res != ("raises", "TypeError"):
+            return False, "split_random_edges on a bipartite graph ends with %r; TypeError expected" % (res,)
+        return True, "%d (graph, k, generator) instances folded" % cnt
+    guard("split_random_edges", sre)
+    return out
+
+
+def check_exact_m(R, prog):
+    from ..report import Result as _Result
+    T = _Result(P, "")
+    broken = None
+    try:
+        _shape_exact_m(T, prog)
+    except AnalysisError as e:
+        broken = e
+    sem = semantic_samplers(prog)
+    for fname, v in sorted(sem.items()):
+        fi = prog.func(GR, fname)
+        if v[0] is True:
+            R.ok("EXACT-M", "%s: %s" % (fname, v[1]), fi.key)
+        elif v[0] is False:
+            R.bad(F("EXACT-M", fi, "%s adds exactly the requested edges" % fname, v[1]))
+        else:
+            R.unknown("EXACT-M", fname, fi.key, v[1])
+    if broken is not None and not all(v[0] is True for v in sem.values()):
+        raise broken
+    for o in T.obligations:
+        if o["status"] == "discharged":
+            R.ok(o["rule"], o["instance"], o["where"], nontrivial=o["nontrivial"])
+    for u in T.unproven:
+        R.unknown(u["rule"], u["instance"], u["where"], u["why"])
+    R.floors.extend(T.floors)
+    for f_ in T.findings:
+        if sem.get(f_.function, (None,))[0] is True:
+            R.unknown(f_.rule, f_.construct, "%s:%s %s" % (f_.file, f_.line, f_.function),
+                      "shape not recognised (%s); the meaning of the fragment was confirmed by folding" % f_.message[:100])
+        else:
+            R.bad(f_)
